@@ -504,7 +504,18 @@ def check(repo: Repo, run: Run) -> None:
                 if not c.is_repo:
                     continue
                 n6 += 1
-                bad = checked_intermediates(c.nnode, set(EXPECTED_RANGE))
+                # builtins applied to CEL operands dispatch to the class's own dunder when it defines one: abs(x) ->
+                # x.__abs__().  A repository __abs__ that is range-decorated or re-wraps in the class makes abs(MIN)
+                # an overflow inside an operator whose exact result fits.
+                checked_builtins = set()
+                for bname, bd in (("abs", "__abs__"), ("divmod", "__divmod__"), ("pow", "__pow__"), ("round", "__round__")):
+                    bc = matrix.cell(repo, cname, bd)
+                    if bc.is_repo:
+                        decos = [(dotted(d) or ast.unparse(d)).split(".")[-1].split("(")[0] for d in bc.node.decorator_list]
+                        wraps = any(isinstance(x, ast.Call) and (dotted(x.func) or "").split(".")[-1] == cname for x in ast.walk(bc.node))
+                        if wraps or any(d in ("int64", "uint64") or "64" in d for d in decos):
+                            checked_builtins.add(bname)
+                bad = checked_intermediates(c.nnode, set(EXPECTED_RANGE), checked_builtins)
                 run.ob("C01.M6", f"{cname}.{dunder}", not bad,
                        f"{cname}.{dunder}: " + ("intermediate values are plain Python ints" if not bad else
                                                f"`{bad[0]}` feeds the result of a range-checked {cname} operator into further arithmetic: the intermediate can overflow although the exact result fits"),
@@ -520,7 +531,7 @@ def check(repo: Repo, run: Run) -> None:
 ARITH_OPS = (ast.Add, ast.Sub, ast.Mult, ast.Div, ast.FloorDiv, ast.Mod, ast.Pow)
 
 
-def checked_intermediates(fn: ast.FunctionDef, cel_classes) -> List[str]:
+def checked_intermediates(fn: ast.FunctionDef, cel_classes, checked_builtins=frozenset()) -> List[str]:
     """Arithmetic BinOps one of whose operands is itself the result of an arithmetic BinOp on a
     CEL-typed value (a parameter of the method, or IntType(...)/UintType(...))."""
     params = {a.arg for a in fn.args.args}
@@ -545,6 +556,8 @@ def checked_intermediates(fn: ast.FunctionDef, cel_classes) -> List[str]:
             return is_cel(e.left) or is_cel(e.right)
         if isinstance(e, ast.UnaryOp) and isinstance(e.op, ast.USub):
             return is_cel(e.operand) and not isinstance(strip_cast(e.operand), ast.Constant)
+        if isinstance(e, ast.Call) and isinstance(e.func, ast.Name) and e.func.id in checked_builtins and e.args and is_cel(e.args[0]):
+            return True  # abs(self) with a range-checked __abs__ of the class
         return False
 
     bad: List[str] = []
